@@ -1,4 +1,5 @@
 """C09 — broker delivers each publication exactly once, in one common order."""
+import re
 import core, nfa, loops, graph, own
 from mir import Body, sinks, agg_sites
 from props.c15 import roots
@@ -71,11 +72,39 @@ def run_cfg(ctx, fx):
         weak = [a["ty"] for a in o["atoms"] if (own.classify(a)[0] or "").startswith("weakch")]
         ctx.require(not bad and weak, "R09.1", "Broker", "the subscriber table keeps subscribers alive: %s" % bad[:2], fn="broker::Broker", site=fx.adts["broker::Broker"]["loc"], detail=weak)
     # R09.2
+    # which message makes the broker insert / remove: two message types with a handler each, or one enum message whose
+    # variants select the operation in a single handler
+    WRAPS = {"insert": ("broker::Subscribe", None), "remove": ("broker::Unsubscribe", None)}
+    OP_HANDLER = {}
+    for g in fx.impl_fns("handler::Handler", "broker::Broker<"):
+        if "broker::Publish<" in (g.get("impl_trait") or ""):
+            continue
+        gcos = [c for c in fx.children_of(g["def"]) if c["kind"] == "coroutine"]
+        if len(gcos) != 1:
+            continue
+        gb = ctx.body(fx, gcos[0])
+        m_ = re.search(r"handler::Handler<([A-Za-z0-9_:]+)<", g.get("impl_trait") or "")
+        madt = m_.group(1) if m_ else None
+        for _gbi, gt in gb.normal_calls():
+            c_ = gt.get("callee") or ""
+            if c_.startswith("std::collections::hash::map::") and c_.endswith(("::insert", "::remove")):
+                op_ = c_.split("::")[-1]
+                var = None
+                for o_ in gb.origins(gt["args"][1]):
+                    for e_ in o_.proj:
+                        if isinstance(e_, str) and e_.startswith("d") and ":" in e_:
+                            var = e_.split(":", 1)[1]
+                OP_HANDLER.setdefault(op_, []).append((g, var))
+                if madt:
+                    WRAPS[op_] = (madt, var)
     for msg, op in (("Subscribe", "insert"), ("Unsubscribe", "remove")):
         f = None
         for g in fx.impl_fns("handler::Handler", "broker::Broker<"):
             if "broker::%s<" % msg in (g.get("impl_trait") or ""):
                 f = g
+        only_variant = None
+        if f is None and len(OP_HANDLER.get(op, [])) == 1:
+            f, only_variant = OP_HANDLER[op][0]
         if not ctx.require(f is not None, "R09.2", msg, "handler for %s not found" % msg):
             continue
         cos = [c for c in fx.children_of(f["def"]) if c["kind"] == "coroutine"]
@@ -84,6 +113,9 @@ def run_cfg(ctx, fx):
         b = ctx.body(fx, cos[0])
         is_tabop = lambda t: (t.get("callee") or "").startswith("std::collections::hash::map::") and (t.get("callee") or "").endswith(("::insert", "::remove", "::entry", "::clear", "::retain"))
         ops = [t for _, t in b.normal_calls() if is_tabop(t)]
+        if only_variant is not None:
+            # one handler for an enum message: this operation is the one in the arm of its variant
+            ops = [t for t in ops if t["callee"].endswith("::" + op)]
         via = None
         if not ops:
             # the table may be wrapped in a crate-local type whose methods perform the map operation: look one call down
@@ -148,17 +180,28 @@ def run_cfg(ctx, fx):
         co = [c for c in fx.children_of(f["def"]) if c["kind"] == "coroutine"][0]
         b = ctx.body(fx, co)
         A = nfa.Alphabet(calls=[("send", nfa.callee_is("addr::sender::Sender::<M>::send", "addr::sender::Sender::<M>::force_send")), ("iternext", nfa.callee_ends("Iterator::next"))], adts={"core::option::Option": "Option", "core::result::Result": "Res"})
-        n = nfa.build(b, A)
+        n = nfa.build(b, A, fx, depth=2)  # the fan-out may sit in a method the handler awaits (`self.distribute(topic).await`)
         viols, ps = nfa.check(n, FanOut())
         ctx.count_nfa(n.stats(), ps)
         for v in viols:
             ctx.viol("R09.3", "fan-out", v["msg"], fn=co["def"], site=co["loc"], trace=v["trace"])
         if not viols:
             ctx.ok("R09.3", "fan-out", co["loc"], {"words": [" ".join(w) for w in nfa.words(n, limit=3)]})
-        for bi, t in b.normal_calls():
+        import loops as _loops
+        pub_family = [(g_, ctx.body(fx, g_)) for g_ in _loops.loop_family(fx, co) if (g_.get("impl_self") or g_["def"]).startswith(("broker::", "<broker::")) or g_["def"].startswith(("broker::", "<broker::"))]
+        n_send = 0
+        for co_s, b_s in pub_family:
+          for bi, t in b_s.normal_calls():
             if t.get("callee") == "addr::sender::Sender::<M>::send":
+                n_send += 1
+                b = b_s
                 # message = clone of the published one; receiver = element of the upgraded collection
                 mr = roots(b, t["args"][1])
+                if co_s is not co:
+                    # in a helper: the message is the helper's own parameter, which the handler binds to the publication
+                    hcalls = [ht for _hb, ht in ctx.body(fx, co).normal_calls() if not (ht.get("callee") or "").endswith(("Future::poll", "poll_unpin")) and fx.callee_fn(ht) is not None and (fx.callee_fn(ht)["def"] == co_s.get("parent") or fx.callee_fn(ht)["def"] == co_s["def"])]
+                    bound = bool(hcalls) and all(all(r2.kind == "upvar" for r2 in roots(ctx.body(fx, co), a_)) for ht in hcalls for a_ in ht["args"][1:] if a_.get("k") in ("move", "copy"))
+                    ctx.require(bound, "R09.3", "delivers-publication:binding", "the helper that fans out is not given the published message", fn=co["def"], site=t["l"])
                 ctx.require(all(r.kind == "upvar" for r in mr), "R09.3", "delivers-publication", "what is delivered is not (a clone of) the published message", fn=co["def"], site=t["l"])
                 rr = b.origins(t["args"][0])
                 src = set()
@@ -169,12 +212,10 @@ def run_cfg(ctx, fx):
                     else:
                         src.add(o.kind)
                 ctx.ok("R09.3", "receiver-source", t["l"], sorted(src))
+        ctx.floor("R09.3", "sends in the publish handler", n_send, 1)
+        b = ctx.body(fx, co)
         n_sets = 0
-        fam_bodies = [(co, b)]
-        for _cbi, ct in b.normal_calls():
-            h = fx.callee_fn(ct)
-            if h is not None and h["kind"] in ("fn", "assoc_fn") and not h.get("is_async") and (h.get("impl_self") or "").startswith("broker::"):
-                fam_bodies.append((h, ctx.body(fx, h)))
+        fam_bodies = list(pub_family)
         for co_, b_ in fam_bodies:
           for bi, t in b_.normal_calls():
             if (t.get("callee") or "").endswith("Iterator::collect") and "addr::sender::Sender<" in (t.get("destty") or ""):
@@ -197,7 +238,11 @@ def run_cfg(ctx, fx):
             if name == "subscribers":
                 touch.setdefault(g.get("root", g["def"]), []).append(gb.term(bi)["l"])
     ok_roots = [r for r in touch if (fx.fn(r) or {}).get("impl_self", "").startswith("broker::Broker<") and (fx.fn(r) or {}).get("impl_trait_def") in ("handler::Handler", "core::default::Default")]
-    ctx.require(sorted(ok_roots) == sorted(touch) and len(touch) >= 3, "R09.5", "table-writers", "the subscriber table is touched outside the broker's own handlers: %s" % sorted(set(touch) - set(ok_roots)), detail=sorted(touch))
+    # private methods of the broker that only its handlers (or such methods) use are part of those handlers
+    owners_ = {g["def"] for g in fx.d["fns"] if g["kind"] in ("fn", "assoc_fn") and (g.get("impl_self") or "").startswith("broker::Broker<") and g.get("impl_trait_def") in ("handler::Handler", "core::default::Default")}
+    helper_roots = graph.private_helpers(fx, owners_)
+    ok_roots = ok_roots + [r for r in touch if r in helper_roots and r not in ok_roots]
+    ctx.require(sorted(ok_roots) == sorted(touch) and len(touch) >= 2, "R09.5", "table-writers", "the subscriber table is touched outside the broker's own handlers: %s" % sorted(set(touch) - set(ok_roots)), detail=sorted(touch))
     for g in fx.d["fns"]:
         gb = ctx.body(fx, g)
         for bi, t in gb.normal_calls():
@@ -224,6 +269,7 @@ def run_cfg(ctx, fx):
         "context::Context::<A>::publish": ("broker::Broker::<T>::publish", None),
         "context::Context::<A>::subscribe": ("broker::Broker::<T>::subscribe", None),
     }
+    ALT = {"broker::Broker::<T>::publish": "addr::Addr::<broker::Broker<T>>::publish", "broker::Broker::<T>::subscribe": "addr::Addr::<broker::Broker<T>>::subscribe"}
     n_ok = 0
     for e, (callee, wrap) in entries.items():
         if e == "context::Context::<A>::publish" and fx.cfg == "smol":
@@ -235,6 +281,13 @@ def run_cfg(ctx, fx):
             continue
         b = ctx.body(fx, fam[0])
         calls = [(bi, t) for bi, t in b.normal_calls() if t.get("callee") == callee]
+        if not calls and e.startswith("context::Context::<A>::") and callee in ALT:
+            # a Context entry point may also go to the registry's broker address itself (what the static wrapper does)
+            callee = ALT[callee]
+            calls = [(bi, t) for bi, t in b.normal_calls() if t.get("callee") == callee]
+            via_addr = True
+        else:
+            via_addr = False
         if not ctx.require(len(calls) == 1, "R09.4", "entry:" + e, "%s must forward to %s exactly once" % (e, callee), fn=fam[0]["def"], site=fam[0]["loc"]):
             continue
         bi, t = calls[0]
@@ -244,17 +297,27 @@ def run_cfg(ctx, fx):
         fsk = sinks(b, t["dest"][0])
         awaited = any(s["k"] == "call" and (s["t"].get("callee") or "").endswith("Future::poll") for s in fsk)
         ok = ok and awaited
-        if e.startswith("broker::Broker::<T>::"):
-            # receiver: the broker from the registry
+        if e.startswith("broker::Broker::<T>::") or via_addr:
+            # receiver: the broker from the registry (awaited here, or through a crate-local async helper that returns it)
             rr = roots(b, t["args"][0])
             got = False
             for r in b.origins(t["args"][0]):
                 if r.kind == "await":
-                    got = any((ct.get("callee") or "").endswith("Service::from_registry") for _x, ct in b.awaited_calls(r.site[0]))
+                    for _x, ct in b.awaited_calls(r.site[0]):
+                        if (ct.get("callee") or "").endswith("Service::from_registry"):
+                            got = True
+                        h_ = fx.callee_fn(ct)
+                        if h_ is not None and h_.get("is_async"):
+                            hco = [c_ for c_ in fx.children_of(h_["def"]) if c_["kind"] == "coroutine"]
+                            if len(hco) == 1:
+                                hb_ = ctx.body(fx, hco[0])
+                                ho = hb_.origins([0])
+                                got = bool(ho) and all(x.kind == "await" and any((c2.get("callee") or "").endswith("Service::from_registry") for _y, c2 in hb_.awaited_calls(x.site[0])) for x in ho)
             ok = ok and got
             det["receiver"] = "Service::from_registry().await"
         if wrap:
-            wr = [st for _bi, _si, st in agg_sites(b, adt=wrap)]
+            wadt, wvar = WRAPS["insert"] if wrap == "broker::Subscribe" else (WRAPS["remove"] if wrap == "broker::Unsubscribe" else (wrap, None))
+            wr = [st for _bi, _si, st in agg_sites(b, adt=wadt) if wvar is None or st["r"].get("variant") == wvar]
             okw = len(wr) == 1 and all(r.kind == "upvar" for r in roots(b, wr[0]["r"]["ops"][0]))
             okr = all(r.kind == "upvar" for r in roots(b, t["args"][0]))
             ok = ok and okw and okr
@@ -262,7 +325,8 @@ def run_cfg(ctx, fx):
         if e == "context::Context::<A>::subscribe":
             ws = [ct for _x, ct in b.normal_calls() if ct.get("callee") == "context::Context::<A>::weak_sender"]
             okw = len(ws) == 1 and all(r.kind == "upvar" for r in roots(b, ws[0]["args"][0]))
-            arg_from_ws = any(o.kind == "call" and b.call_at(o).get("callee") == "context::Context::<A>::weak_sender" for o in b.origins(t["args"][0]))
+            sender_arg = t["args"][1] if via_addr and len(t["args"]) > 1 else t["args"][0]  # (the address method takes the broker first)
+            arg_from_ws = any(o.kind == "call" and b.call_at(o).get("callee") == "context::Context::<A>::weak_sender" for o in b.origins(sender_arg))
             ok = ok and okw and arg_from_ws
             det["subscribes"] = "weak sender of its own context"
         n_ok += 1
